@@ -880,7 +880,8 @@ impl<'a> Gen<'a> {
 
     fn alpha_char(&mut self) -> u32 {
         // 1-, 2-, 3- and 4-byte characters; case pairs, multi-character case images (ß, ŉ, İ, ﬁ),
-        // title case (ǅ), digits and white space outside ASCII, NUL. No sigma (see StringOps.lean).
+        // title case (ǅ), digits and white space outside ASCII, NUL; the three sigmas and the
+        // characters that decide what "the end of a word" is for str::to_lowercase (see sigma_char).
         const A: [u32; 38] = [
             0x61, 0x5a, 0x30, 0x20, 0x6d, 0x7a, 0x41, 0x0, 0x7f, // 1 byte
             0xe9, 0xc9, 0x3bb, 0x39b, 0xdf, 0x1c5, 0x130, 0x149, 0x663, 0xa0, 0xb5, // 2 bytes
@@ -889,7 +890,45 @@ impl<'a> Gen<'a> {
             // case pairs whose two members have DIFFERENT UTF-8 widths (Ⱥ/ⱥ, Kelvin/k, Ohm/ω; ẞ/ß and İ are above)
             0x23a, 0x2c65, 0x212a, 0x2126,
         ];
-        *self.rng.pick(&A)
+        if self.rng.chance(1, 6) {
+            self.sigma_char()
+        } else {
+            *self.rng.pick(&A)
+        }
+    }
+
+    /// The alphabet around Final_Sigma (`str::to_lowercase`: Σ becomes ς iff preceded, skipping
+    /// Case_Ignorable characters, by a Cased character and not followed, skipping Case_Ignorable
+    /// characters, by a Cased one): Σ σ ς (weighted up), cased letters (Α α a Z), Case_Ignorable
+    /// characters (. : ' soft hyphen, combining acute, middle dot, and ʰ U+02B0 which is Cased AND
+    /// Case_Ignorable), uncased ones (digit, space, €).
+    fn sigma_char(&mut self) -> u32 {
+        const S: [u32; 22] = [
+            0x3a3, 0x3a3, 0x3a3, 0x3a3, 0x3c3, 0x3c3, 0x3c2, 0x3c2, // Σ σ ς
+            0x391, 0x3b1, 0x61, 0x5a, // Α α a Z
+            0x2e, 0x3a, 0x27, 0xad, 0x301, 0xb7, 0x2b0, // . : ' SHY ◌́ · ʰ
+            0x31, 0x20, 0x20ac, // 1 space €
+        ];
+        *self.rng.pick(&S)
+    }
+
+    /// 1-5 characters of the sigma alphabet: Σ word-final, -initial, -medial, alone, doubled, next to
+    /// Case_Ignorable and uncased characters all occur
+    fn sigma_word(&mut self) -> Vec<u32> {
+        let n = self.rng.range(1, 5) as usize;
+        (0..n).map(|_| self.sigma_char()).collect()
+    }
+
+    /// a string argument for the case operations: a fresh word over the sigma alphabet (1 in 3) or
+    /// any pool string
+    fn case_strish(&mut self) -> Arg {
+        if self.rng.chance(1, 3) {
+            let w = self.sigma_word();
+            self.push("string", w.iter().map(|c| Arg::Char(*c)).collect());
+            Arg::Pool(self.n() - 1)
+        } else {
+            self.strish()
+        }
     }
 
     fn charish(&mut self) -> Arg {
@@ -932,6 +971,10 @@ impl<'a> Gen<'a> {
                     let b = self.strish();
                     self.push("vector", vec![a, b])
                 }
+                3 => {
+                    let w = self.sigma_word();
+                    self.push("string", w.iter().map(|c| Arg::Char(*c)).collect())
+                }
                 _ => {
                     let m = self.rng.below(6);
                     let args = (0..m).map(|_| Arg::Char(self.alpha_char())).collect();
@@ -959,9 +1002,12 @@ impl<'a> Gen<'a> {
         const CMP: [&str; 5] = ["=?", "<?", ">?", "<=?", ">=?"];
         let name = *self.rng.pick(&OPS);
         match name {
-            "string-length" | "string->vector" | "string-upcase" | "string-downcase"
-            | "string-foldcase" => {
+            "string-length" | "string->vector" => {
                 let s = self.strish();
+                self.push(name, vec![s])
+            }
+            "string-upcase" | "string-downcase" | "string-foldcase" => {
+                let s = self.case_strish();
                 self.push(name, vec![s])
             }
             "string-ref" => {
@@ -1041,10 +1087,16 @@ impl<'a> Gen<'a> {
                 let mut args: Vec<Arg> = (0..m).map(|_| self.strish()).collect();
                 if self.rng.chance(1, 3) {
                     // two strings that differ only in case (so the -ci predicates must call them equal), built
-                    // character by character; the case counterparts may have another UTF-8 width
+                    // character by character; the case counterparts may have another UTF-8 width. Half of them are
+                    // words around Final_Sigma, where the counterpart of a sigma may also be the other small sigma
+                    // (char::to_lowercase keeps σ and ς apart, so those pairs are unequal: both answers occur)
                     let n = self.rng.range(1, 4) as usize;
-                    let cs: Vec<u32> = (0..n).map(|_| self.alpha_char()).collect();
-                    let other: Vec<u32> = cs
+                    let cs: Vec<u32> = if self.rng.chance(1, 2) {
+                        self.sigma_word()
+                    } else {
+                        (0..n).map(|_| self.alpha_char()).collect()
+                    };
+                    let mut other: Vec<u32> = cs
                         .iter()
                         .map(|c| {
                             let ch = char::from_u32(*c).unwrap();
@@ -1059,6 +1111,12 @@ impl<'a> Gen<'a> {
                             }
                         })
                         .collect();
+                    // the counterpart of a sigma is any of the three ("ΑΣ" against "ασ" and against "ας")
+                    for c in other.iter_mut() {
+                        if matches!(*c, 0x3a3 | 0x3c3 | 0x3c2) && self.rng.chance(1, 2) {
+                            *c = *self.rng.pick(&[0x3a3, 0x3c3, 0x3c2]);
+                        }
+                    }
                     self.push("string", cs.iter().map(|c| Arg::Char(*c)).collect());
                     let a = self.n() - 1;
                     self.push("string", other.iter().map(|c| Arg::Char(*c)).collect());
@@ -1128,64 +1186,8 @@ impl<'a> Gen<'a> {
         }
     }
 
-    /// the case-mapping oracle for every character that occurs in the arguments or in any
-    /// observed state, closed under to_lowercase / to_uppercase
     fn case_table(&self) -> String {
-        let mut cps: Vec<u32> = vec![0];
-        for op in &self.ops {
-            for a in &op.args {
-                match a {
-                    Arg::Char(c) => cps.push(*c),
-                    Arg::Int(n) => {
-                        if let Ok(v) = n.parse::<u32>() {
-                            cps.push(v)
-                        }
-                    }
-                    _ => {}
-                }
-            }
-        }
-        for st in &self.steps {
-            // c<cp> atoms and the code points of rendered strings
-            for tok in st.split(|c: char| !(c.is_ascii_digit() || c == 'c')) {
-                let t = tok.trim_start_matches('c');
-                if let Ok(v) = t.parse::<u32>() {
-                    cps.push(v)
-                }
-            }
-        }
-        let mut chars: Vec<char> = cps.into_iter().filter_map(char::from_u32).collect();
-        for _ in 0..2 {
-            let mut more = vec![];
-            for c in &chars {
-                more.extend(c.to_lowercase());
-                more.extend(c.to_uppercase());
-            }
-            chars.extend(more);
-        }
-        chars.sort();
-        chars.dedup();
-        let enc = |it: &mut dyn Iterator<Item = char>| {
-            it.map(|c| (c as u32).to_string()).collect::<Vec<_>>().join(".")
-        };
-        let entries: Vec<String> = chars
-            .iter()
-            .map(|c| {
-                let flags = (c.is_alphabetic() as u32)
-                    | (c.is_numeric() as u32) << 1
-                    | (c.is_whitespace() as u32) << 2
-                    | (c.is_lowercase() as u32) << 3
-                    | (c.is_uppercase() as u32) << 4;
-                format!(
-                    "{}:{}:{}:{}",
-                    *c as u32,
-                    enc(&mut c.to_lowercase()),
-                    enc(&mut c.to_uppercase()),
-                    flags
-                )
-            })
-            .collect();
-        format!("T{}", entries.join(";"))
+        case_table_of(&self.ops, &self.steps)
     }
 
     fn line15(&self) -> String {
@@ -1208,21 +1210,101 @@ impl<'a> Gen<'a> {
     }
 }
 
-fn replay(ops: &[String]) -> String {
+/// what `str::to_lowercase` sees of `char::is_cased` / `char::is_case_ignorable` (neither is public),
+/// observed through its public behaviour only. It gives Σ the final form ς iff
+/// `case_ignorable_then_cased(before.rev()) && !case_ignorable_then_cased(after)`, where that function
+/// skips Case_Ignorable characters and then tests `is_cased` (library/alloc/src/str.rs). Hence
+/// `c Σ` ends in ς iff c is Cased and not Case_Ignorable, and `Α c Σ` ends in ς iff c is Case_Ignorable
+/// or (Cased and not Case_Ignorable). A character that is both (ʰ U+02B0) is skipped by std before
+/// `is_cased` is asked, so it counts as ignorable and its `cased` bit is never consulted.
+fn context_bits(c: char) -> (bool, bool) {
+    let cased = format!("{}\u{3a3}", c).to_lowercase().ends_with('\u{3c2}');
+    let ignorable = !cased && format!("\u{391}{}\u{3a3}", c).to_lowercase().ends_with('\u{3c2}');
+    (cased, ignorable)
+}
+
+/// the case-mapping oracle for every character that occurs in the arguments or in any
+/// observed state, closed under to_lowercase / to_uppercase
+fn case_table_of(ops: &[Op], steps: &[String]) -> String {
+    let mut cps: Vec<u32> = vec![0];
+    for op in ops {
+        for a in &op.args {
+            match a {
+                Arg::Char(c) => cps.push(*c),
+                Arg::Int(n) => {
+                    if let Ok(v) = n.parse::<u32>() {
+                        cps.push(v)
+                    }
+                }
+                _ => {}
+            }
+        }
+    }
+    for st in steps {
+        // c<cp> atoms and the code points of rendered strings
+        for tok in st.split(|c: char| !(c.is_ascii_digit() || c == 'c')) {
+            let t = tok.trim_start_matches('c');
+            if let Ok(v) = t.parse::<u32>() {
+                cps.push(v)
+            }
+        }
+    }
+    let mut chars: Vec<char> = cps.into_iter().filter_map(char::from_u32).collect();
+    for _ in 0..2 {
+        let mut more = vec![];
+        for c in &chars {
+            more.extend(c.to_lowercase());
+            more.extend(c.to_uppercase());
+        }
+        chars.extend(more);
+    }
+    chars.sort();
+    chars.dedup();
+    let enc = |it: &mut dyn Iterator<Item = char>| {
+        it.map(|c| (c as u32).to_string()).collect::<Vec<_>>().join(".")
+    };
+    let entries: Vec<String> = chars
+        .iter()
+        .map(|c| {
+            let (cased, ignorable) = context_bits(*c);
+            let flags = (c.is_alphabetic() as u32)
+                | (c.is_numeric() as u32) << 1
+                | (c.is_whitespace() as u32) << 2
+                | (c.is_lowercase() as u32) << 3
+                | (c.is_uppercase() as u32) << 4
+                | (cased as u32) << 5
+                | (ignorable as u32) << 6
+                | 1 << 7; // this entry carries the two context bits
+            format!(
+                "{}:{}:{}:{}",
+                *c as u32,
+                enc(&mut c.to_lowercase()),
+                enc(&mut c.to_uppercase()),
+                flags
+            )
+        })
+        .collect();
+    format!("T{}", entries.join(";"))
+}
+
+/// the answer and, when every token parsed, the operations and their observed steps
+fn replay_steps(ops: &[String]) -> (String, Option<(Vec<Op>, Vec<String>)>) {
     let mut sess = Sess::new();
     let mut steps = vec![];
+    let mut parsed = vec![];
     for w in ops {
         let op = match Op::parse(w) {
             Some(op) => op,
-            None => return "bad-op".into(),
+            None => return ("bad-op".into(), None),
         };
         let (text, cont) = sess.step(&op);
+        parsed.push(op);
         steps.push(text);
         if !cont {
             break;
         }
     }
-    format!("ok {}", steps.join("|"))
+    (format!("ok {}", steps.join("|")), Some((parsed, steps)))
 }
 
 fn main() {
@@ -1279,18 +1361,17 @@ fn main() {
             // store replay c14 op op ...   (prints the same line shape as the generators)
             let cmd = &args[2];
             let all: Vec<String> = args[3..].to_vec();
-            // a c15 request carries its case table as first token
+            // a c15 request carries its case table as first token; the table is the harness's oracle, so it is
+            // recomputed here from the operations and the observed states (a corpus line may just say `T`)
             let skip = if all.first().map(|w| w.starts_with('T')).unwrap_or(false) { 1 } else { 0 };
-            writeln!(
-                out,
-                "{} {}\t{}\t{}s {}",
-                cmd,
-                all.join(" "),
-                replay(&all[skip..]),
-                cmd,
-                all.join(" ")
-            )
-            .unwrap();
+            let (answer, seen) = replay_steps(&all[skip..]);
+            let mut req = all.clone();
+            if skip == 1 {
+                if let Some((ops, steps)) = &seen {
+                    req[0] = case_table_of(ops, steps);
+                }
+            }
+            writeln!(out, "{} {}\t{}\t{}s {}", cmd, req.join(" "), answer, cmd, req.join(" ")).unwrap();
         }
         Some("scheme") => {
             // print the Scheme text of a sequence (for humans reading a replay file)
